@@ -360,6 +360,11 @@ func checkC06(r *core.Run) {
 	ruleBankErr(r)
 	ruleFlows(r, "C06")
 	ruleBooked(r)
+	r.Rule("T-couple(pool): in AddVstorage/RemoveVstorage the pool's byte and coin totals move by the same terms as the provider's own (the per-byte reward rate is reward / Pool.TotalStorage and each provider is credited rate x its own TotalStorage: a pool total below the sum over providers credits more than was minted)")
+	for _, h := range []string{"node/keeper.msgServer.AddVstorage", "node/keeper.msgServer.RemoveVstorage"} {
+		coupleSame(r, "T-couple", h, "node/types.Pledge.TotalStorage", "node/types.Pool.TotalStorage", false)
+		coupleSame(r, "T-couple", h, "node/types.Pledge.TotalStoragePledged", "node/types.Pool.TotalPledged.Amount", true)
+	}
 	r.Rule("T-refund-class: in market.Withdraw the full-duration price leaves the market escrow only for a waiting shard, the remaining-term price only for a completed shard of this order (no payout without a matching booked entitlement)")
 	ruleWithdrawClass(r)
 }
@@ -374,6 +379,11 @@ func checkC07(r *core.Run) {
 	r.Assume(aDeps)
 	r.Assume(aCG)
 	ruleFlows(r, "C07")
+	r.Rule("G-release-own: model.TerminateOrder releases a shard's collateral only if the shard is completed AND is in the period of the order being terminated (shard.OrderId == order.Id): a renewal order lists the same shard, and without the equality the collateral is paid back once per order")
+	evalGuard(r, "G-release-own", "model/keeper.Keeper.TerminateOrder", effSel{Calls: []string{"node/keeper.Keeper.ShardRelease", "model/types.NodeKeeper.ShardRelease"}}, []clause{
+		cl("shard-is-completed", guard.Eq("*order/keeper.Keeper.GetShard(*)#0.Status", constVal(r, "order/types", "ShardCompleted"))),
+		cl("shard-is-in-this-order's-period", guard.Eq("*order/keeper.Keeper.GetShard(*)#0.OrderId", "#2.Id")),
+	}, 1)
 	ruleShardReleaseCallers(r)
 	pl := fGetPledge + "(" + msg + ".Creator)#0"
 	evalGuard(r, "G-rmv", "node/keeper.msgServer.RemoveVstorage", effSel{Calls: []string{"node/types.BankKeeper.SendCoinsFromModuleToAccount", "node/keeper.Keeper.SetPledge"}}, []clause{
@@ -482,4 +492,141 @@ func ruleReleaseTerm(r *core.Run) {
 		}
 		r.Violate("T-couple", key, r.P.FuncPos(fn), "ShardRelease does not lower Pledge.TotalShardPledged by exactly shard.Pledge ("+got+"): after debt repayment the total stays above the sum over the provider's live shards")
 	}
+}
+
+// ruleAppendFresh (T-append-fresh): WorkerAppend credits the provider with
+// price x size x (current height - shard.CreatedAt) of back-pay, so at every
+// booking the shard's CreatedAt must have been set to the current height in the
+// same transaction, on every path, before the call. A booking that still sees
+// the start of an earlier (already settled) period pays that period twice out
+// of the shared market escrow.
+func ruleAppendFresh(r *core.Run, prop string) {
+	const id = "T-append-fresh"
+	af := r.Func(id, "market/keeper.Keeper.WorkerAppend")
+	if af == nil {
+		return
+	}
+	n := 0
+	var check func(f *ssa.Function, call ssa.CallInstruction, shard ssa.Value, depth int, label string)
+	check = func(f *ssa.Function, call ssa.CallInstruction, shard ssa.Value, depth int, label string) {
+		res := r.Resolver(f)
+		base := shard
+		for {
+			switch x := base.(type) {
+			case *ssa.UnOp:
+				if _, isLoadOfAlloc := x.X.(*ssa.Alloc); isLoadOfAlloc {
+					base = x.X
+					continue
+				}
+				base = x.X // *ptr: the record behind the pointer; stores go through FieldAddr(ptr, ...)
+				continue
+			case *ssa.MakeInterface:
+				base = x.X
+				continue
+			}
+			break
+		}
+		// a by-value parameter spilled to a local: the caller decides
+		if al, ok := base.(*ssa.Alloc); ok {
+			for _, ref := range *al.Referrers() {
+				if st, ok := ref.(*ssa.Store); ok && st.Addr == al {
+					if p, ok := st.Val.(*ssa.Parameter); ok {
+						base = p
+					}
+				}
+			}
+		}
+		if p, ok := base.(*ssa.Parameter); ok && depth < 2 {
+			idx := -1
+			for i, q := range f.Params {
+				if q == p {
+					idx = i
+				}
+			}
+			found := false
+			for _, caller := range r.P.CG.In[f] {
+				if !r.ConsensusFuncs()[caller] {
+					continue
+				}
+				for _, site := range r.P.CG.Sites[caller] {
+					for _, c := range site.Callees {
+						if c != f {
+							continue
+						}
+						args := site.Instr.Common().Args
+						ai := idx
+						if site.Instr.Common().IsInvoke() {
+							ai = idx - 1
+						}
+						if ai >= 0 && ai < len(args) {
+							found = true
+							check(caller, site.Instr, args[ai], depth+1, label+" <- "+r.P.Name(caller))
+						}
+					}
+				}
+			}
+			if found {
+				return
+			}
+		}
+		n++
+		key := core.Key(id, label)
+		want := "uint64(sdk.Context.BlockHeight())"
+		blocks := map[*ssa.BasicBlock]bool{}
+		sameBlockBefore := false
+		for _, b := range f.Blocks {
+			for _, ins := range b.Instrs {
+				if ins == call.(ssa.Instruction) {
+					break
+				}
+				st, ok := ins.(*ssa.Store)
+				if !ok {
+					continue
+				}
+				fa, ok := st.Addr.(*ssa.FieldAddr)
+				if !ok || fa.X != base || fieldNameT(fa.X.Type(), fa.Field) != "CreatedAt" {
+					continue
+				}
+				if normT(res.Of(st.Val).String()) != want {
+					continue
+				}
+				if b == call.Block() {
+					sameBlockBefore = true
+				} else {
+					blocks[b] = true
+				}
+			}
+		}
+		ok := sameBlockBefore
+		if !ok && len(blocks) > 0 {
+			ok = forwardAvoid(f.Blocks[0], blocks, nil, func(x *ssa.BasicBlock) bool { return x == call.Block() }) == nil
+		}
+		if ok {
+			r.Discharge(id, key, r.P.Pos(call.Pos()), "the shard's CreatedAt is set to the current height on every path before it is booked (no back-pay)")
+		} else {
+			r.Violate(id, key, r.P.Pos(call.Pos()), "a shard is booked on its provider's market worker although its CreatedAt was not set to the current height on every path before the call: WorkerAppend credits price x size x (height - CreatedAt) of back-pay, i.e. a period that was already settled (or never served) is paid again from the shared market escrow, so income + refunds exceed what the order was charged")
+		}
+	}
+	for _, f := range r.P.SortedFuncs(r.ConsensusFuncs()) {
+		res := r.Resolver(f)
+		cnt := 0
+		for _, b := range f.Blocks {
+			for _, ins := range b.Instrs {
+				c, ok := ins.(ssa.CallInstruction)
+				if !ok {
+					continue
+				}
+				_, cs := res.CalleeName(c.Common())
+				for _, g := range cs {
+					if g == af {
+						cnt++
+						args := c.Common().Args
+						check(f, c, args[len(args)-1], 0, fmt.Sprintf("%s|WorkerAppend#%d", r.P.Name(f), cnt))
+					}
+				}
+			}
+		}
+	}
+	_ = prop
+	r.Floor("append_fresh_sites", n, 3)
 }
